@@ -15,7 +15,7 @@ from .poly import Poly
 from .report import norm_text
 from .values import (
     FALSE, NONE, TRUE, Z, AVal, BoundV, ClassV, Const, DictV, Env, ExtMethodV, ExtV, FuncV, LambdaV, ListV, MetaV, ModV,
-    ObjV, PartialV, SetV, SuperV, TV, Unk, VmapV, const_to_tv, join, join_deg,
+    ObjV, OptV, PartialV, SetV, SuperV, TV, Unk, VmapV, const_to_tv, join, join_all, join_deg,
 )
 
 F0 = Fraction(0)
@@ -390,7 +390,10 @@ class Ops:
                 return TV(kind="pybool", dtype="Bool", note="nonempty?" + "+".join(sorted(self.atoms_of(d.keys))) + "|neg")
             tv = tv_of(v)
             if tv is not None:
-                return tv.but(kind="pybool" if tv.is_py else tv.kind, dtype="Bool", poly=None)
+                note = tv.note
+                if note.startswith("nonempty?"):
+                    note = note[:-4] if note.endswith("|neg") else note + "|neg"  # the opposite answer to the same question
+                return tv.but(kind="pybool" if tv.is_py else tv.kind, dtype="Bool", poly=None, note=note)
             return TV(kind="pybool", dtype="Bool")
         tv = tv_of(v)
         if tv is None:
@@ -489,7 +492,7 @@ class Ops:
             return False if isinstance(a, (TV, ListV, DictV, SetV, ObjV, FuncV, ClassV, MetaV)) else None
         if isinstance(a, ObjV) and isinstance(b, ObjV):
             return a is b or a.oid == b.oid
-        return None
+        return None  # (an OptV against None: open)
 
     def contains(self, container, item, negate, node):
         return TV(kind="pybool", dtype="Bool")
@@ -566,7 +569,37 @@ class Ops:
         return None
 
     def assume(self, test_expr, truth, env):
-        """Refines the environment with the outcome of a test (``x is None`` narrowing etc.)."""
+        """Refines the environment with the outcome of a test: `x is None` / `x is not None` / `(x := e) is not None` /
+        `not (...)` narrow a possibly-None object bound to the name x."""
+        t = test_expr
+        while isinstance(t, ast.UnaryOp) and isinstance(t.op, ast.Not):
+            t, truth = t.operand, not truth
+        if isinstance(t, ast.BoolOp):
+            # all conjuncts hold when an `and` is true; all disjuncts fail when an `or` is false
+            if (isinstance(t.op, ast.And) and truth) or (isinstance(t.op, ast.Or) and not truth):
+                undo = []
+                for v in t.values:
+                    undo += self.assume(v, truth, env) or []
+                return undo
+            return None
+        if isinstance(t, ast.Compare) and len(t.ops) == 1 and isinstance(t.ops[0], (ast.Is, ast.IsNot)):
+            l, r = t.left, t.comparators[0]
+            if isinstance(l, ast.Constant) and l.value is None:
+                l, r = r, l
+            if isinstance(r, ast.Constant) and r.value is None:
+                if isinstance(l, ast.NamedExpr):
+                    l = l.target
+                if isinstance(l, ast.Name):
+                    is_none = truth == isinstance(t.ops[0], ast.Is)
+                    e = env
+                    while e is not None:
+                        if l.id in e.vars:
+                            v = e.vars[l.id]
+                            if isinstance(v, OptV):
+                                e.vars[l.id] = NONE if is_none else v.val
+                                return [(e.vars, l.id, v)]  # undo entry
+                            break
+                        e = e.parent
         return None
 
     # ============================================================================== containers
@@ -576,6 +609,8 @@ class Ops:
     def to_set(self, v, node):
         if isinstance(v, SetV):
             return v
+        if isinstance(v, ListV) and v.it is not None:
+            v = self.consume(v, node)
         if isinstance(v, ListV):
             if v.items is not None:
                 return SetV(items=tuple(v.items))
@@ -708,7 +743,124 @@ class Ops:
         return None
 
     # ---- iteration
+    # ---- one-shot iterators -------------------------------------------------------------------------------------------------
+    def fresh_iter(self, lst):
+        """Marks a sequence value as a one-shot iterator (its elements are handed out once along a path)."""
+        if not isinstance(lst, ListV):
+            return lst
+        tr = self.interp.trace
+        tr.iter_n += 1
+        tr.iters[("born", tr.iter_n)] = self.interp.join_depth
+        return replace(lst, it=tr.iter_n)
+
+    def iter_in_loop(self, lst) -> bool:
+        """An abstract loop was entered after the iterator was created: how often it was advanced since is not known."""
+        return self.interp.join_depth > self.interp.trace.iters.get(("born", lst.it), 0)
+
+    def consume(self, lst, node, full=True):
+        """What a consumer of the one-shot iterator `lst` sees now; `full` = the consumer exhausts it."""
+        if not isinstance(lst, ListV) or lst.it is None:
+            return lst
+        tr = self.interp.trace
+        who = (id(node), tr.call_serial)
+        st = tr.iters.get(lst.it)
+        pos, partial = 0, False
+        if isinstance(st, tuple) and st[0] == "cond":
+            # exhausted on the paths where the recorded question received the recorded answer
+            st = (("all" if tr.decided.get(st[4]) is st[5] else "some"),) + st[1:4]
+        if isinstance(st, tuple):
+            if st[1] == who:
+                pos = st[2]  # the same consumer looking again at its own argument
+                partial = st[3]
+            elif st[0] == "all":
+                self.ev("iterator_reuse", node, state="exhausted")
+                return ListV(items=(), kind=lst.kind)
+            else:
+                self.ev("iterator_reuse", node, state="partly consumed")
+                pos, partial = st[2], True
+        elif st is not None:
+            pos = st
+        if self.iter_in_loop(lst) and not isinstance(st, tuple):
+            full = False  # consumed somewhere inside an abstract loop: how often is not known
+        tr.iters[lst.it] = ("all" if full else "some", who, pos, partial)
+        if lst.items is not None:
+            rest = lst.items[pos:]
+            if partial:
+                return ListV(items=None, elem=join_all(rest) if rest else None, kind=lst.kind, order=lst.order) if rest else ListV(items=(), kind=lst.kind)
+            return replace(lst, items=rest, it=None)
+        return replace(lst, it=None)
+
+    def exhausted_if(self, lst, key, outcome):
+        """A short-circuiting consumer read `lst` to its end on the paths where question `key` is answered `outcome` (key None: always)."""
+        if not isinstance(lst, ListV) or lst.it is None:
+            return
+        tr = self.interp.trace
+        st = tr.iters.get(lst.it)
+        if isinstance(st, tuple) and st[0] == "some":
+            tr.iters[lst.it] = ("all", None, st[2], st[3]) if key is None else ("cond", None, st[2], st[3], key, outcome)
+
+    def iter_next(self, lst, default, node):
+        """next(it[, default])."""
+        I = self.interp
+        tr = I.trace
+        st = tr.iters.get(lst.it)
+        if isinstance(st, tuple) and st[0] == "cond":
+            st = (("all" if tr.decided.get(st[4]) is st[5] else "some"),) + st[1:4]
+        if isinstance(st, tuple):
+            if st[0] == "all":
+                if default is not None:
+                    return default
+                I.may_raise(["StopIteration"], node, "next")
+                return self.unk("next of an exhausted iterator", node)
+            rest = self.consume(lst, node, full=False)
+            e = rest.elem if rest.items is None else (join_all(rest.items) if rest.items else None)
+            if e is None:
+                return default if default is not None else self.unk("next of an exhausted iterator", node)
+            if default is None:
+                I.may_raise(["StopIteration"], node, "next")
+                return e
+            return self.optional(e, default) if hasattr(self, "optional") else join(e, default)
+        pos = st or 0
+        if lst.items is not None and not self.iter_in_loop(lst):
+            if pos < len(lst.items):
+                tr.iters[lst.it] = pos + 1
+                return lst.items[pos]
+            if default is not None:
+                return default
+            I.may_raise(["StopIteration"], node, "next")
+            return self.unk("next of an exhausted iterator", node)
+        if lst.items is None and st is None and I.join_depth == 0 and lst.elem is not None:
+            # first element of a collection of unknown size: "is there one?" is the emptiness question about the collection
+            at = sorted(self.atoms_of(lst))
+            key = ("nonempty?" + "+".join(at)) if at else None
+            if key is not None and key in tr.decided:
+                has = tr.decided[key]
+            else:
+                has = I.oracle.decide(f"{I.where(node)[0]}: next() finds an element", 2) == 0
+                tr.decisions.append(f"{'T' if has else 'F'}[{norm_text(node)} finds an element]")
+                if key is not None:
+                    tr.decided[key] = has
+            if has:
+                tr.iters[lst.it] = ("some", None, 0, True)
+                return lst.elem
+            tr.iters[lst.it] = ("all", None, 0, False)
+            if default is not None:
+                return default
+            I.may_raise(["StopIteration"], node, "next")
+            return self.unk("next of an empty iterator", node)
+        # summary (or inside an abstract loop): some element, or the default when nothing is left
+        tr.iters[lst.it] = ("some", None, pos, True)
+        e = lst.elem if lst.items is None else (join_all(lst.items[pos:]) if lst.items[pos:] else None)
+        if e is None:
+            return default if default is not None else self.unk("next of an empty iterator", node)
+        if default is None:
+            I.may_raise(["StopIteration"], node, "next")
+            return e
+        return self.optional(e, default) if hasattr(self, "optional") else join(e, default)
+
     def iterate(self, v, node, env, parts=False):
+        if isinstance(v, ListV) and v.it is not None:
+            v = self.consume(v, node)
         if isinstance(v, ListV):
             if v.items is not None:
                 return ("concrete", list(v.items))
